@@ -36,6 +36,11 @@ func cases(r *evid.Run) []chainsim.Case {
 		i := len(out)
 		out = append(out, chainsim.Case{Index: i, Seed: uint64(r.Seed)*1_000_003 + uint64(i), Profile: "keymanager", Blocks: blocks})
 	}
+	// VRF beacon backend (alpha derived from the proof map, validators and committees ordered by VRF outputs).
+	for j, k := 0, r.Pick(4, 100); j < k; j++ {
+		i := len(out)
+		out = append(out, chainsim.Case{Index: i, Seed: uint64(r.Seed)*1_000_003 + uint64(i), Profile: "vrf", Blocks: blocks})
+	}
 	return out
 }
 
@@ -298,6 +303,7 @@ func runCase(c chainsim.Case, rep chainsim.Reporter, scratch string) {
 		ok += n
 	}
 	chainsim.ReportKeyManager(h, rep)
+	chainsim.ReportVRF(h, rep) // VRF beacon support: counters of the VRF histories
 	// Non-trivial: a history with >= 3 epoch transitions in which every path was used.
 	if h.EpochTransitions >= 3 && len(h.PathUsed) >= 5 && h.Height >= int64(c.Blocks)/2 {
 		rep.Nontrivial(fmt.Sprintf("%s/%d", c.Profile, c.Seed))
